@@ -104,7 +104,8 @@ PROPS["C06"] = {
     "level_text": "Proved in Lean for every value, hash string and hash family with codes < 2^63 and digests < 2^31 bytes: the model multihash formula and the error for "
                   "unsupported codes; validation succeeds iff the string is the hash computed from a value with the same canonical form under the code in its own prefix "
                   "(or an explicit collision is exhibited); code_of_hash; computed-using iff; everything that validates is a well-formed encoded multihash; "
-                  "base64url, varint and multihash decode∘encode = id (unbounded, by induction). SHA-2 itself is executable-only and compared byte for byte with Go.",
+                  "base64url, varint and multihash decode∘encode = id (unbounded, by induction) and, conversely, every accepted encoded hash is the canonical text of its code and "
+                  "digest (accepted_hash_is_canonical, same_hash_same_text: one hash, one text). SHA-2 itself is executable-only and compared byte for byte with Go.",
     "level_note": "Trusted: Lean kernel; extractor; harness's own SHA-2 (Go stdlib). Collision resistance of SHA-2 is not assumed: conclusions carry an explicit collision alternative.",
 }
 
